@@ -214,6 +214,18 @@ def run(ctx):
         okc = sorted(sig) == ids and all(pos[x] > pos[y] for x in A for y in list(B) + S1)
         if not okc:
             ctx.fail("C09:sample:large-tree", "a draw on a large tree is not a compatible order of all data points", {"clone_sizes": [a_, b_, 1, c_], "outliers": no_})
+        # ... and the two top-level subtrees (and the outliers) are interleaved: with hundreds of points per block the
+        # probability that a uniformly drawn compatible order keeps a block contiguous is astronomically small
+        blockA = set(A) | set(B) | set(S1)
+        def contiguous(order, block):
+            idx = [i for i, x in enumerate(order) if x in block]
+            return bool(idx) and idx[-1] - idx[0] + 1 == len(idx)
+        n_contig = 0
+        for _k in range(5):
+            sg = [int(d.idx) for d in _RPD.sample(bt, _np.random.default_rng(ctx.rng.randrange(10**9)))]
+            n_contig += int(contiguous(sg, blockA) or (len(O) >= 2 and contiguous(sg, set(O))))
+        if n_contig and len(C) >= 2:
+            ctx.fail("C09:sample:large-tree:not-interleaved", "in %d of 5 draws on a tree with clone sizes %s and %d outliers a whole top-level subtree (or the outlier set) occupies a contiguous stretch of the order: sibling subtrees / outliers are not interleaved" % (n_contig, [a_, b_, 1, c_], no_), {"clone_sizes": [a_, b_, 1, c_], "outliers": no_})
     # ---- correspondence: model vs implementation inside Coq
     header = "\n".join([
         "From PV Require Import Model.Perm Model.CaseUtil.", "Open Scope nat_scope.",
